@@ -17,10 +17,18 @@ def main():
     meta = json.load(open(os.path.join(out, "meta.json")))
     res = {"property": mid, "summary": meta.get("summary"), "needs": meta.get("needs"), "demo_cmd": meta.get("demo_cmd"), "ran": []}
     demo = meta["demo_cmd"]
-    # make sure the change is applied
+    # rebase the worktree onto the current main (fix commits picked since it was created), change applied
     rc, _ = sh("git apply --check -R out/patch.diff", wt)
+    if rc == 0:
+        sh("git apply -R out/patch.diff", wt)
+    sh("git checkout -q --detach main", wt)
+    rc, o = sh("git apply out/patch.diff", wt)
+    res["applies_on_main"] = rc == 0
     if rc != 0:
-        sh("git apply out/patch.diff", wt)
+        res["apply_error"] = o[-800:]
+        d = os.path.join(V, "seeded", mid); os.makedirs(d, exist_ok=True)
+        json.dump(res, open(os.path.join(d, "meta.json"), "w"), indent=1)
+        print(json.dumps(res)); return
     rc1, o1 = sh(demo, wt)
     res["demo_fails_with_change"] = rc1 != 0
     sh("git apply -R out/patch.diff", wt)
